@@ -56,7 +56,7 @@ def run(tier, replay=None):
         kinds[c["kind"]] = kinds.get(c["kind"], 0) + 1
     rep.coverage = dict(**vcov, traces_validated_against_impl=vres["recorded"],
         evaluations=len(cases), distinct_nontrivial=sum(1 for c in cases if len(c["chain"]) >= 1),
-        rule=f"GenFail.tla BFS: 7 failure kinds x 3 positions x every chain of <= {depth} activations over function/method/list-callback x every split point into an imported module; non-trivial = failure below at least one call",
+        rule=f"GenFail.tla BFS: 7 failure kinds x 3 positions x every chain of <= {depth} activations over function/method/list-callback/self-recursive function (three open activations, plain and tail recursion) x every split point into an imported module; non-trivial = failure below at least one call",
         exhaustive=(len(cases) == total), per_kind=kinds, out_of_model=len(skips),
         samples=[dict(id=c["id"], trace=c["obs"][0]["trace"], out=c["obs"][0]["out"]) for c in cases[:: max(1, len(cases) // 3)][:3]],
         states=st["states"] + vres["states"] + g.distinct, transitions=st["transitions"] + vres["transitions"] + g.generated, executions=2 * len(cases),
